@@ -256,10 +256,24 @@ def runBundle (names : List String) (dbg : Bool) (op : String) (mask : Nat) (arg
       some (.ok args)
   | _ => runBase (bundleOps names) (bundleCodec names) dbg op mask args ints
 
+/-- tangent arithmetic (`tangent_base.h` free operators), the same for every group: the vector
+    space operations on the coefficients.  `t*a, a*t, t/a, -t, t+s, t-s, t+v, v+t, v-t`. -/
+def tArith (dof : Nat) (args : List K) : Option (Except Err (List K)) :=
+  if args.length != 2 * dof + 1 then none else
+  let t := args.take dof
+  let s := (args.drop dof).take dof
+  let a := args.getD (2 * dof) (nat 0)
+  some (.ok (t.map (· * a) ++ t.map (· * a) ++ t.map (· / a) ++ t.map (fun x => -x) ++
+    List.zipWith (· + ·) t s ++ List.zipWith (· - ·) t s ++ List.zipWith (· + ·) t s ++
+    List.zipWith (· + ·) s t ++ List.zipWith (· - ·) s t))
+
 /-- top-level dispatch: `B:<elem>,<elem>,…` is `Bundle<double, elem…>`, anything else a plain group. -/
 def runTop (grp : String) (dbg : Bool) (op : String) (mask : Nat) (args : List K) (ints : List Int) :
     Option (Except Err (List K)) :=
   if op == "phi" then runCanonical grp dbg op mask args ints      -- group independent
+  else if op == "t_arith" then
+    tArith (if grp.startsWith "B:" then (bundleCodec (K := K) ((grp.drop 2).toString.splitOn ",")).dof
+            else (groupSizes grp).2) args
   else if grp.startsWith "B:" then
     let names := (grp.drop 2).toString.splitOn ","
     let c := bundleCodec (K := K) names
